@@ -99,6 +99,9 @@ class Writer:
         self.in_dflt = 0
         # ids are case-sensitive: r1 and R1 are two ids
         self.mixed_case_ids = rng.random() < 0.3
+        self.outer_conflict = rng.random() < 0.4
+        self.rebind = rng.random() < 0.5
+        self.in_mr = 0
 
     def new_id(self):
         self.n += 1
@@ -113,11 +116,14 @@ class Writer:
             # local mode: an element declares exactly the prefixes its own attributes use
             if not self.local:
                 return ""
-            uris = {self.xsi: XSI, "x": TNS, "xsd": XSD, "soapenc": ENC}
+            uris = {self.xsi: XSI, "x": TNS, "y": TNS, "xsd": XSD, "soapenc": ENC}
             return "".join(' xmlns:%s="%s"' % (p, uris[p]) for p in dict.fromkeys(prefixes))
         if v[0] == "struct":
             if self.in_dflt:
                 return decl(self.xsi) + ' %s:type="%s"' % (self.xsi, v[1])
+            if self.local and self.rebind and self.in_mr:
+                # inside an independent element that binds y to something else, this element re-binds y for itself
+                return decl(self.xsi, "y") + ' %s:type="y:%s"' % (self.xsi, v[1])
             return decl(self.xsi, "x") + ' %s:type="x:%s"' % (self.xsi, v[1])
         if v[0] == "array":
             return decl(self.xsi, "soapenc", v[1].split(":")[0]) + \
@@ -148,11 +154,16 @@ class Writer:
                 if self.shadow and v[0] in ("str", "int"):
                     root = ' xmlns:x="urn:shadowed:%d"%s' % (self.n, root)
                 use_dflt = self.dflt and v[0] == "struct" and not self.in_dflt
+                was_in_mr, self.in_mr = self.in_mr, 0
                 own_type = self.type_attrs(v)
+                self.in_mr = was_in_mr + 1
+                if self.local and self.rebind:
+                    root = ' xmlns:y="urn:decoy:%d"%s' % (self.n, root)
                 if use_dflt:
                     root = ' xmlns="%s"%s' % (TNS, root)
                     self.in_dflt += 1
                 body = self.content(v)
+                self.in_mr = was_in_mr
                 if use_dflt:
                     self.in_dflt -= 1
                 self.multirefs.append('<%s id="%s"%s%s>%s</%s>' % (tag, rid, root, own_type, body, tag))
@@ -172,7 +183,10 @@ class Writer:
         mr = "".join(self.multirefs)
         body = (mr + resp) if self.placement == "before" else (resp + mr)
         if self.local:
-            return ('<e:Envelope xmlns:e="%s"><e:Body>%s</e:Body></e:Envelope>' % (xmlread.ENV11, body)).encode("utf-8")
+            # (sometimes the envelope binds the same prefixes to something else: every element that uses one re-binds
+            # it for itself, as local mode does anyway)
+            outer = ' xmlns:x="urn:outer:x" xmlns:xsd="urn:outer:xsd"' if self.outer_conflict else ""
+            return ('<e:Envelope xmlns:e="%s"%s><e:Body>%s</e:Body></e:Envelope>' % (xmlread.ENV11, outer, body)).encode("utf-8")
         return ('<e:Envelope xmlns:e="%s" xmlns:%s="%s" xmlns:xsd="%s" xmlns:soapenc="%s" xmlns:x="%s">'
                 '<e:Body>%s</e:Body></e:Envelope>' % (xmlread.ENV11, self.xsi, XSI, XSD, ENC, TNS, body)).encode("utf-8")
 
@@ -280,6 +294,7 @@ def run(ctx):
         if ans is not None:
             ctx.compare("MultiRef.process", meta, real, strip_ids(ans))
     jagged_and_dangling(ctx)
+    digit_ended_type_names(ctx)
     lean_writer_roundtrip(ctx)
     # a reference that dangles in this reply stays dangling, whatever earlier replies on the same client defined
     head = ('<e:Envelope xmlns:e="%s" xmlns:xsi="%s" xmlns:xsd="%s" xmlns:soapenc="%s" xmlns:x="%s"><e:Body>'
@@ -427,6 +442,36 @@ def jagged_and_dangling(ctx):
         got = "%s: %s" % (type(e).__name__, e)
     if got != [41, 7]:
         ctx.fail("a dangling href disturbed the references after it", {"stream": "dangling-then-valid"}, got, [41, 7])
+
+
+def digit_ended_type_names(ctx):
+    """An array whose item type has a name ending in a digit (Vec3), items untyped, inline and out of line."""
+    schema = ('<xsd:import namespace="http://schemas.xmlsoap.org/soap/encoding/"/><xsd:complexType name="Vec3"><xsd:sequence>'
+              '<xsd:element name="x" type="xsd:int"/><xsd:element name="tag" type="xsd:string" minOccurs="0"/></xsd:sequence>'
+              '</xsd:complexType><xsd:complexType name="Vec"><xsd:sequence><xsd:element name="other" type="xsd:string"/>'
+              '</xsd:sequence></xsd:complexType><xsd:complexType name="ArrayOfVec3"><xsd:complexContent><xsd:restriction '
+              'base="soapenc:Array"><xsd:attribute ref="soapenc:arrayType" wsdl:arrayType="x:Vec3[]"/></xsd:restriction>'
+              '</xsd:complexContent></xsd:complexType>')
+    c = wsdlkit.client(wsdlkit.wsdl_doc(schema, style="rpc", use="encoded", in_parts=[("a", "type", "xsd:string")],
+                                        out_parts=[("return", "type", "x:ArrayOfVec3")]))
+    env = ('<e:Envelope xmlns:e="%s" xmlns:xsi="%s" xmlns:xsd="%s" xmlns:soapenc="%s" xmlns:x="%s"><e:Body>'
+           '<m:fResponse xmlns:m="%s">%%s</m:fResponse>%%s</e:Body></e:Envelope>' % (xmlread.ENV11, XSI, XSD, ENC, TNS, TNS))
+    items = "<item><x>1</x><tag>a</tag></item><item><x>2</x></item>"
+    inline = env % ('<return xsi:type="soapenc:Array" soapenc:arrayType="x:Vec3[2]">%s</return>' % items, "")
+    outl = env % ('<return href="#a1"/>', '<multiRef id="a1" soapenc:root="0" xsi:type="soapenc:Array" '
+                  'soapenc:arrayType="x:Vec3[2]">%s</multiRef>' % items)
+    got = []
+    for name, doc in (("inline", inline), ("out-of-line", outl)):
+        ctx.case(("digit-ended-type", name), True)
+        try:
+            r = c.service.f("q", __inject={"reply": doc.encode()})
+            got.append([[type(i).__name__, getattr(i, "x", None), str(getattr(i, "tag", None))] for i in r])
+        except Exception as e:
+            got.append("%s: %s" % (type(e).__name__, e))
+    want = [["Vec3", 1, "a"], ["Vec3", 2, "None"]]
+    if got != [want, want]:
+        ctx.fail("an array of a type whose name ends in a digit does not decode to its items (inline / out of line)",
+                 {"stream": "digit-ended-type"}, got, [want, want])
 
 
 def widen(ctx):
